@@ -44,7 +44,7 @@ ASSUMPTIONS = [
     "the docstring spelling `start = \"A\"` is not exercised: only the working `\"<input>_0\"` form used by the shipped algorithms",
 ]
 REQUIRED_CLASSES = {"all": ["domain=program", "domain=shipped", "has-product", "has-marker", "has-recurrence", "has-scope-call",
-                            "nested-call-under-condition", "has-hermitian-product", "has-selection-wrappers", "n_inf=2", "deleted-term", "inputs=data", "inputs=evaluated"]}
+                            "nested-call-under-condition", "has-hermitian-product", "has-selection-wrappers", "n_inf=2", "deleted-term", "inputs=data", "inputs=evaluated", "inputs=data_all", "explicit-lower-clause"]}
 
 
 # --------------------------------------------------------------------------- program strategy
@@ -79,7 +79,7 @@ def _expr(draw, refs, prods, depth, funcs=True):
 @st.composite
 def _program(draw):
     n_series = draw(st.integers(2, 5))
-    inputs = ["A"] + (["B"] if draw(st.integers(0, 3)) == 0 else [])
+    inputs = ["A"] + (["B"] if draw(st.integers(0, 2)) == 0 else [])
     series, products = [], []
     rank = {}  # name -> rank
     start_of = {}
@@ -124,7 +124,7 @@ def _program(draw):
             if needed_ok(p["terms"], r):
                 usable.append(" @ ".join(p["terms"]))
         for _ in range(draw(st.integers(0, 2))):
-            pool = inputs + list(rank)
+            pool = [x for x in inputs if x != "B"] + list(rank)
             k = draw(st.sampled_from([2, 2, 2, 3]))
             terms = [draw(st.sampled_from(pool)) for _ in range(k)]
             pname = " @ ".join(terms)
@@ -136,7 +136,7 @@ def _program(draw):
             usable.append(pname)
         # hermitian product of mutual adjoints: helper series Xd = "X".adj with X of lower rank (or an input)
         if refs and draw(st.integers(0, 2)) == 0:
-            base = draw(st.sampled_from(refs))
+            base = draw(st.sampled_from([r_ for r_ in refs if r_ != "B"]))
             hname = base + "d"
             if hname not in rank:
                 series.append({"name": hname, "start": None, "marker": None, "clauses": [[None, ["ref", base, True]]]})
@@ -150,10 +150,18 @@ def _program(draw):
         marker = draw(st.sampled_from([None, None, "hermitian", "antihermitian"]))
         clauses = []
         for _ in range(draw(st.integers(1, 3))):
-            cond = draw(st.sampled_from([None, "diagonal", "offdiagonal"]))
+            cond = draw(st.sampled_from([None, None, "diagonal", "offdiagonal", "lower"] if not marker else [None, "diagonal", "offdiagonal"]))
             if not refs and not usable:
                 continue
-            clauses.append([cond, draw(_expr(refs, usable, draw(st.integers(0, 3))))])
+            if "B" in inputs:
+                # the second input is only ever read inside explicit `if lower:` sections
+                if cond == "lower" and draw(st.integers(0, 3)) > 0:
+                    clauses.append([cond, ["ref", "B", draw(st.booleans())]])
+                    continue
+                crefs = [r_ for r_ in refs if r_ != "B"]
+            else:
+                crefs = refs
+            clauses.append([cond, draw(_expr(crefs, usable, draw(st.integers(0, 3))))])
         if not clauses:
             clauses = [[None, ["ref", "A", False]]]
         series.append({"name": name, "start": start, "marker": marker, "clauses": clauses})
@@ -178,18 +186,32 @@ def _program_case(draw, tier):
     n_inf = draw(st.sampled_from([1, 1, 2]))
     sizes = [draw(st.integers(1, 2)) for _ in range(nb)]
     maxo = 3 if n_inf == 1 else 2
-    names = [s["name"] for s in prog["series"]] + [" @ ".join(p["terms"]) for p in prog["products"]]
+    names = [s["name"] for s in prog["series"]] + [" @ ".join(p["terms"]) for p in prog["products"]] + list(prog["inputs"])
     sched = []
     for _ in range(draw(st.integers(4, 14 if tier == "quick" else 30))):
         o = [draw(st.integers(0, maxo)) for _ in range(n_inf)]
         while sum(o) > maxo:
             o[o.index(max(o))] -= 1
         sched.append([draw(st.sampled_from(names)), draw(st.integers(0, nb - 1)), draw(st.integers(0, nb - 1))] + o)
+    prefetch = draw(st.sampled_from(["none", "none", "evaluated", "data", "data_all"]))
+    if "B" in prog["inputs"]:
+        # the second input is read only inside explicit `if lower:` sections: ask for such a series below the diagonal
+        # and then for the input element it consumed
+        if draw(st.booleans()):
+            prefetch = "data_all"
+        for srs in prog["series"]:
+            for cond, e in srs["clauses"]:
+                if cond == "lower" and e[0] == "ref" and e[1] == "B" and nb >= 2:
+                    i = draw(st.integers(1, nb - 1))
+                    j = draw(st.integers(0, i - 1))
+                    o = [draw(st.integers(0, 2 if n_inf == 1 else 1)) for _ in range(n_inf)]
+                    sched.append([srs["name"], i, j] + o)
+                    sched.append(["B", j, i] + o if e[2] else ["B", i, j] + o)
     return {
         "domain": "program", "program": prog, "nb": nb, "n_inf": n_inf, "sizes": sizes, "salt": draw(st.integers(0, 10**6)),
         "flagA": draw(st.booleans()), "flags": [draw(st.booleans()) for _ in range(nb)],
         "wrappers": draw(st.integers(0, 3)) == 0, "schedule": sched,
-        "prefetch": draw(st.sampled_from(["none", "none", "evaluated", "data"])),
+        "prefetch": prefetch,
     }
 
 
@@ -246,6 +268,8 @@ def program_features(prog):
     for s in prog["series"]:
         if s["marker"]:
             feats.add("has-marker")
+        if any(c == "lower" for c, _ in s["clauses"]):
+            feats.add("explicit-lower-clause")
         for cond, e in s["clauses"]:
             def visit(x, cond=cond, s=s):
                 if x[0] in ("call", "callS"):
@@ -291,6 +315,16 @@ def _check_program(case, out):
                 for j in range(nb):
                     v = input_value(case, tag, (i, j) + (0,) * n_inf)
                     data[(i, j) + (0,) * n_inf] = zero if v is None else v
+        if case.get("prefetch") == "data_all":
+            # purely data-backed input (no eval at all): a deleted element could never be recomputed
+            import itertools as _it
+
+            data = {}
+            for idx in _it.product(range(nb), range(nb), *[range(5)] * n_inf):
+                v = input_value(case, tag, idx)
+                if v is not None:
+                    data[idx] = v
+            return BlockSeries(data=data, shape=(nb, nb), n_infinite=n_inf, name=["A", "B"][tag])
         series_in = BlockSeries(eval=ev, data=data, shape=(nb, nb), n_infinite=n_inf, name=["A", "B"][tag])
         if case.get("prefetch") == "evaluated":
             # the caller has already looked at the unperturbed part before compiling the algorithm
